@@ -123,8 +123,8 @@ def run_plan(plan: dict, replay=None) -> dict:
                 if bad:
                     viol.append(dict(clause="c01-compiled-probe-invariant", signature="c01-bad", episode=e, node=n, bad=bad, compile=cc))
             # redundantly: rex's own two records agree on the rows the compiled run executed
-            crec = out.aux["record"]
-            for n in nodes:
+            crec = out.aux.get("record")
+            for n in (nodes if crec is not None else ()):
                 cs, as_ = crec.nodes[n].steps, eo.record.nodes[n].steps
                 cseq = onp.asarray(cs.seq)
                 ran = onp.nonzero(cseq >= 0)[0]
